@@ -149,6 +149,7 @@ class LedgerInvariant:
         self.nonempty = 0
         self.mark = {}
         self.ctx = {}
+        self.nl_seen, self.nl_grace = {}, {}
         self.excused = {}          # node -> keys already reported under the refused-DELSA finding
         self.excused_idx = {}
         world.monitors.append(self)
@@ -183,6 +184,20 @@ class LedgerInvariant:
         self.checks += 1
         if led or trk:
             self.nonempty += 1
+        # a netlink transport fault (send() / recv() failing with ENOBUFS: not an answer of the kernel) may abort an event half-way; the daemon
+        # gets until its next timer sweep to be in step again (a closed IKE_SA that could not be removed in one go is removed there)
+        fired = getattr(node.kernel, 'nl_faults_fired', 0)
+        ck0 = cause[0] if isinstance(cause, tuple) else cause
+        if fired != self.nl_seen.get(node.name, 0):
+            self.nl_seen[node.name] = fired
+            self.nl_grace[node.name] = True
+            if led != trk:
+                return
+        elif self.nl_grace.get(node.name):
+            if led == trk or ck0 == 'tick':
+                self.nl_grace[node.name] = False
+            else:
+                return
         if led == trk:
             return
         from .observe import parse_header, EXCH
